@@ -13,7 +13,8 @@
 From Coq Require Import List NArith ZArith Bool FMapPositive.
 Import ListNotations.
 From LC.Base Require Import Float64.
-From LC.V2 Require Import SSet Match Planted MatchWF Shift.
+From Coq Require Import Sorted.
+From LC.V2 Require Import SSet Match Planted MatchWF Shift FuseShift WindowSpec.
 
 Theorem C07_exact_copy_position_independent_partial :
   forall (H : list N -> N) (q : nat) (A K B : list N),
@@ -63,3 +64,129 @@ Print Assumptions C07_hit_bitmap_position_independent_partial.
 (* non-vacuity: three matched ranges on three diagonals, shifted by two windows *)
 Example C07_shift_example : ltac:(let t := type of Shift.ex_shift in exact t).
 Proof. exact Shift.ex_shift. Qed.
+
+(* ---- the density window (detectRuns) ---- *)
+
+(* the prefix-sum sliding window is the naive count of hits in [i, min(i+L, n)) , for every hit list *)
+Theorem C07_window_refines_count :
+  forall (hits : list N) (L : nat) (target : N),
+         let P := prefix_sums hits 0 in
+         zip_windows P (skipn L P) (last P 0%N) 0 target (length hits) =
+         map N.of_nat (filter (fun i : nat => (target <=? window_count hits i L)%N) (seq 0 (length hits))).
+Proof. exact (@zip_windows_spec). Qed.
+Print Assumptions C07_window_refines_count.
+
+(* detectRuns is group_runs over exactly the indices whose window reaches the target *)
+Theorem C07_detect_runs_spec :
+  forall (matched : list range) (target_len subset_len : N) (thr : f64) (q : N),
+         target_len <> 0%N ->
+         let hits := hits_of matched target_len in
+         let t := trunc (fmul (of_Z (Z.of_N subset_len)) thr) in
+         let tgt := if (t <? 0)%Z then 0%N else Z.to_N t in
+         let L := N.to_nat (N.min subset_len target_len) in
+         detect_runs matched target_len subset_len thr q =
+         group_runs
+           (map N.of_nat
+              (filter (fun i : nat => (tgt <=? window_count hits i L)%N) (seq 0 (N.to_nat target_len)))) q None.
+Proof. exact (@detect_runs_out_spec). Qed.
+Print Assumptions C07_detect_runs_spec.
+
+(* runs are maximal groups of consecutive qualifying indices *)
+Theorem C07_runs_sound :
+  forall (out : list N) (q : N),
+         StronglySorted N.lt out ->
+         forall s e : N,
+         In (s, e) (group_runs out q None) ->
+         In s out /\ In (e - q)%N out /\ (s + q <= e)%N /\ (forall j : N, (s <= j <= e - q)%N -> In j out).
+Proof. exact (@group_runs_sound). Qed.
+Print Assumptions C07_runs_sound.
+
+Theorem C07_runs_cover :
+  forall (out : list N) (q i : N),
+         In i out -> exists s e : N, In (s, e) (group_runs out q None) /\ (s <= i)%N /\ (i + q <= e)%N.
+Proof. exact (@group_runs_cover). Qed.
+Print Assumptions C07_runs_cover.
+
+(* interior and trailing edge: the window count at |A|+i in zeros ++ X ++ zeros is the count at i in X alone *)
+Theorem C07_window_position_independent :
+  forall (hitsX : list N) (la lb i L : nat),
+         window_count (repeat 0%N la ++ hitsX ++ repeat 0%N lb) (la + i) L = window_count hitsX i L.
+Proof. exact (@window_count_embedded). Qed.
+Print Assumptions C07_window_position_independent.
+
+Theorem C07_window_qualifies_embedded :
+  forall (hitsX : list N) (la lb i L : nat) (target : N),
+         (0 < target)%N ->
+         In (N.of_nat (la + i)) (window_out (repeat 0%N la ++ hitsX ++ repeat 0%N lb) L target) <->
+         In (N.of_nat i) (window_out hitsX L target).
+Proof. exact (@window_out_embedded). Qed.
+Print Assumptions C07_window_qualifies_embedded.
+
+Theorem C07_window_nothing_after :
+  forall (hitsX : list N) (la lb j L : nat) (target : N),
+         (0 < target)%N ->
+         la + length hitsX <= j ->
+         ~ In (N.of_nat j) (window_out (repeat 0%N la ++ hitsX ++ repeat 0%N lb) L target).
+Proof. exact (@window_out_after). Qed.
+Print Assumptions C07_window_nothing_after.
+
+(* leading edge: a window that starts in the preceding block qualifies only if X's first window does ... *)
+Theorem C07_window_before_needs_first :
+  forall (hitsX : list N) (la lb i L : nat) (target : N),
+         (0 < target)%N ->
+         i <= la ->
+         In (N.of_nat i) (window_out (repeat 0%N la ++ hitsX ++ repeat 0%N lb) L target) ->
+         In 0%N (window_out hitsX L target).
+Proof. exact (@window_out_before). Qed.
+Print Assumptions C07_window_before_needs_first.
+
+(* ... and it can: the run of the embedded text starts two tokens early *)
+Example C07_leading_edge_example : ltac:(let t := type of (@leading_edge_embedded) in exact t).
+Proof. exact (@leading_edge_embedded). Qed.
+
+(* ---- fusion (fuseRanges) and the claimed-token cut ---- *)
+
+Theorem C07_fusion_position_independent_partial :
+  forall (matched : list range) (conf : f64) (size : N) (runs : list (N * N)) (ts d : N),
+         Forall nonneg_off matched ->
+         fuse_ranges (map (shift d) matched) conf size (map (shift_run d) runs) (ts + d) =
+         map (shift d) (fuse_ranges matched conf size runs ts).
+Proof. exact (@fuse_ranges_shift). Qed.
+Print Assumptions C07_fusion_position_independent_partial.
+
+(* the target size only matters through the run ends *)
+Theorem C07_fusion_size_irrelevant :
+  forall (matched : list range) (conf : f64) (size : N) (runs : list (N * N)) (ts ts' : N),
+         (forall r : N * N, In r runs -> (snd r <= ts)%N) ->
+         (ts <= ts')%N -> fuse_ranges matched conf size runs ts' = fuse_ranges matched conf size runs ts.
+Proof. exact (@fuse_ranges_size_irrelevant). Qed.
+Print Assumptions C07_fusion_size_irrelevant.
+
+(* whole searchset stage, given that the runs shift *)
+Theorem C07_potential_matches_shift_given_runs_partial :
+  forall (src tX tE : sset) (conf : f64) (d lb : N),
+         target_matched_ranges src tE = map (shift d) (target_matched_ranges src tX) ->
+         detect_runs (target_matched_ranges src tE) (ss_len tE) (ss_len src) conf (ss_q src) =
+         map (shift_run d)
+           (detect_runs (target_matched_ranges src tX) (ss_len tX) (ss_len src) conf (ss_q src)) ->
+         (forall r : N * N,
+          In r (detect_runs (target_matched_ranges src tX) (ss_len tX) (ss_len src) conf (ss_q src)) ->
+          (snd r <= ss_len tX)%N) ->
+         Forall nonneg_off (target_matched_ranges src tX) ->
+         ss_len tE = (ss_len tX + d + lb)%N ->
+         find_potential_matches src tE conf = map (shift d) (find_potential_matches src tX conf).
+Proof. exact (@find_potential_matches_shift_given_runs). Qed.
+Print Assumptions C07_potential_matches_shift_given_runs_partial.
+
+(* the hypothesis on the diagonals is needed: the clamp of a negative offset to 0 is position dependent *)
+Theorem C07_clamp_is_position_dependent :
+  exists (em : Z) (runs : list (N * N)) (ts : N) (m : range) (d : N),
+           ~ nonneg_off m /\
+           fuse_loop em (map (shift_run d) runs) (ts + d) [shift d m] (claimed m) false true [] <>
+           map (shift d) (fuse_loop em runs ts [m] (claimed m) false true []).
+Proof. exact (@fuse_negative_offset_is_position_dependent). Qed.
+Print Assumptions C07_clamp_is_position_dependent.
+
+(* non-vacuity of the composed corollary *)
+Example C07_fusion_shift_example : ltac:(let t := type of (@fx_shift) in exact t).
+Proof. exact (@fx_shift). Qed.
